@@ -289,7 +289,9 @@ func check(s Spec) h.Result {
 		f.Close()
 		return h.Failf("resume source: %v", err)
 	}
-	perr := (&overlay.OverlayPatchContext{}).Patch(src, f)
+	// one applier context for two files in a row, as overlayBowl.applyOverlays uses it
+	pctx := &overlay.OverlayPatchContext{}
+	perr := pctx.Patch(src, f)
 	if perr == nil {
 		var fin int64
 		fin, perr = f.Seek(0, io.SeekCurrent)
@@ -304,6 +306,32 @@ func check(s Spec) h.Result {
 	got, _ := os.ReadFile(fp)
 	if !bytes.Equal(got, nw) {
 		return h.Result{Fail: fmt.Sprintf("applying the overlay to the old file gives %d bytes, new content has %d, first difference at %d", len(got), len(nw), firstDiff(got, nw)), Classes: cl}
+	}
+	fp2 := filepath.Join(d, "g")
+	if err := os.WriteFile(fp2, old, 0o644); err != nil {
+		return h.Result{Skip: "cannot write"}
+	}
+	if f2, err := os.OpenFile(fp2, os.O_WRONLY, 0); err == nil {
+		src2 := h.Source(stream)
+		_, perr = src2.Resume(nil)
+		if perr == nil {
+			perr = pctx.Patch(src2, f2)
+		}
+		if perr == nil {
+			var fin int64
+			fin, perr = f2.Seek(0, io.SeekCurrent)
+			if perr == nil {
+				perr = f2.Truncate(fin)
+			}
+		}
+		f2.Close()
+		if perr != nil {
+			return h.Result{Fail: fmt.Sprintf("second use of the same OverlayPatchContext failed: %v", perr), Classes: cl}
+		}
+		got2, _ := os.ReadFile(fp2)
+		if !bytes.Equal(got2, nw) {
+			return h.Result{Fail: fmt.Sprintf("second use of the same OverlayPatchContext (another copy of the old file) gives %d bytes, new content has %d, first difference at %d", len(got2), len(nw), firstDiff(got2, nw)), Classes: cl}
+		}
 	}
 	if nskip > 0 {
 		cl = append(cl, "op:skip")
@@ -403,7 +431,7 @@ func TestProp(t *testing.T) { h.Run(t, prop) }
 
 func containers(oldLen, newLen int) (*tlc.Container, *tlc.Container) {
 	mk := func(n int) *tlc.Container {
-		return &tlc.Container{Files: []*tlc.File{{Path: "f", Mode: 0o644, Size: int64(n), Offset: 0}}, Size: int64(n)}
+		return &tlc.Container{Files: []*tlc.File{{Path: "f", Mode: 0o644, Size: int64(n), Offset: 0}, {Path: "e", Mode: 0o644, Size: int64(n), Offset: int64(n)}}, Size: 2 * int64(n)}
 	}
 	return mk(oldLen), mk(newLen)
 }
@@ -420,6 +448,10 @@ func checkBowl(s Spec) h.Result {
 	if err := os.WriteFile(filepath.Join(out, "f"), old, 0o644); err != nil {
 		return h.Result{Skip: "cannot write"}
 	}
+	// a second overlaid file of the same commit ("e", applied before "f" by the one applier context of Commit)
+	if err := os.WriteFile(filepath.Join(out, "e"), old, 0o644); err != nil {
+		return h.Result{Skip: "cannot write"}
+	}
 	tc, sc := containers(len(old), len(nw))
 	newBowl := func() (bowl.Bowl, error) {
 		return bowl.NewOverlayBowl(bowl.OverlayBowlParams{TargetContainer: tc, SourceContainer: sc, OutputFolder: out, StageFolder: stage, Consumer: h.Quiet()})
@@ -427,6 +459,25 @@ func checkBowl(s Spec) h.Result {
 	b, err := newBowl()
 	if err != nil {
 		return h.Failf("NewOverlayBowl: %v", err)
+	}
+	// file #1 ("e") is written in one go first; its overlay is the first one Commit applies
+	{
+		we, err := b.GetWriter(1)
+		if err != nil {
+			return h.Failf("GetWriter(1): %v", err)
+		}
+		if _, err := we.Resume(nil); err != nil {
+			return h.Failf("EntryWriter.Resume(nil): %v", err)
+		}
+		if _, err := we.Write(nw); err != nil {
+			return h.Failf("Write: %v", err)
+		}
+		if err := we.Finalize(); err != nil {
+			return h.Failf("Finalize: %v", err)
+		}
+		if err := we.Close(); err != nil {
+			return h.Failf("Close: %v", err)
+		}
 	}
 	w, err := b.GetWriter(0)
 	if err != nil {
@@ -572,6 +623,13 @@ func checkBowl(s Spec) h.Result {
 	}
 	if !bytes.Equal(got, nw) {
 		return fail("after Commit the file has %d bytes, new content has %d, first difference at %d (%d sessions, %d saves)", len(got), len(nw), firstDiff(got, nw), sessions, saves)
+	}
+	gotE, err := os.ReadFile(filepath.Join(out, "e"))
+	if err != nil {
+		return fail("reading the second committed file: %v", err)
+	}
+	if !bytes.Equal(gotE, nw) {
+		return fail("after Commit the other overlaid file of the same commit has %d bytes, new content has %d, first difference at %d", len(gotE), len(nw), firstDiff(gotE, nw))
 	}
 	if sessions > 1 {
 		cl = append(cl, "sessions:>1")
